@@ -1403,8 +1403,38 @@ fn pretty_scalar(n: Number) -> Markup {
     m::value(n.pretty_print())
 }
 
+/// Function calls that are echoed in their temperature sugar form (`x °C`, `x -> °C`)
+/// instead of the call syntax.
+fn is_temperature_sugar(expr: &Expression) -> bool {
+    const CONVERSIONS: [&str; 6] = [
+        "°C",
+        "celsius",
+        "degree_celsius",
+        "°F",
+        "fahrenheit",
+        "degree_fahrenheit",
+    ];
+    match expr {
+        Expression::FunctionCall { name, args, .. } => {
+            args.len() == 1
+                && (*name == "from_celsius"
+                    || *name == "from_fahrenheit"
+                    || CONVERSIONS.contains(name))
+        }
+        Expression::CallableCall { callable, args, .. } => {
+            args.len() == 1
+                && matches!(callable.as_ref(), Expression::Identifier { name, .. } if CONVERSIONS.contains(name))
+        }
+        _ => false,
+    }
+}
+
 fn with_parens(expr: &Expression) -> Markup {
     match expr {
+        // the sugar forms are a product resp. a conversion, not a call
+        _ if is_temperature_sugar(expr) => {
+            m::operator("(") + expr.pretty_print() + m::operator(")")
+        }
         Expression::Scalar { .. }
         | Expression::Identifier { .. }
         | Expression::UnitIdentifier { .. }
